@@ -758,6 +758,17 @@ func (x *Exec) loadFacts(st *State, v Val) {
 	}
 }
 
+// frameAcc: the conjunction of the frame conditions met on this path; it is checked once more
+// at the return under a name that does not depend on where the stores are (so that a store
+// added by a later change fails an obligation the unchanged tree discharges).
+func (x *Exec) frameAcc(st *State, ok Term) {
+	prev, has := st.ghost["frameok"]
+	if !has {
+		prev = True
+	}
+	st.ghost["frameok"] = And(prev, ok)
+}
+
 func (x *Exec) store(st *State, l *Loc, v Val) {
 	switch l.Kind {
 	case LCell:
@@ -770,6 +781,7 @@ func (x *Exec) store(st *State, l *Loc, v Val) {
 		x.immutCheck(st, l)
 		if !x.frameAllows(key) && st.ghost["fresh:"+l.Base.S].S != "true" {
 			x.oblige(st, "FRAME", fmt.Sprintf("frame(store to %s at %s)", x.fieldKey(l.ST, l.Idx), x.posText(x.curPos)), x.isFresh(st, l.Base), "store outside the declared modifies clause")
+			x.frameAcc(st, x.isFresh(st, l.Base))
 		}
 		st.heap[key] = Store(arr, l.Base, x.termOf(st, &v))
 	case LSub:
@@ -1299,6 +1311,7 @@ func (x *Exec) mapUpdate(fr *Frame, st *State, in *ssa.MapUpdate) {
 			if hasMapItem {
 				// (map contents are framed only where the contract names map items at all)
 				x.oblige(st, "FRAME", fmt.Sprintf("frame(map update at %s)", x.posText(in.Pos())), x.isFresh(st, m.T), "update of a map outside the declared modifies clause")
+				x.frameAcc(st, x.isFresh(st, m.T))
 			}
 		}
 	}
